@@ -90,7 +90,7 @@ def conc_binding():
 
 
 OWNER = {"df8fc79": "C02", "9cce7cb": "C04", "a82e766": "C07", "735ca7b": "C15", "d849cb8": "C10", "a718cff": "C09", "ebdd107": "C09", "2ea1087": "C09",
-         "0aa2fb3": "C14", "247ec96": "C14", "36ba745": "C12"}
+         "0aa2fb3": "C14", "247ec96": "C14", "36ba745": "C12", "2135124": "C03"}
 
 
 def reverts():
